@@ -20,35 +20,35 @@ static dpair_t make_pair(dcall_t c, char s) { dpair_t p; p.first = c; p.second =
 extern char g_cur_seq;                    /* m_deferred_events_queue.m_cur_seq */
 #define CUR_SEQ(self) g_cur_seq
 void dq_push_back(fsm_t* self, dpair_t p)
-__CPROVER_requires(p.first.target == self)                                       /*@ob C05.deferred-occurrence-stored-for-this-machine */
+__CPROVER_requires(p.first.target == self)                                       /*@ob C05,C07.deferred-occurrence-stored-for-this-machine */
 __CPROVER_requires(EV_EQ(p.first.ev, g_evt))                                     /*@ob C05,C18.deferred-occurrence-keeps-type-and-payload */
 __CPROVER_requires((p.first.src & EVENT_SOURCE_DEFERRED) != 0 && (p.first.src & EVENT_SOURCE_DIRECT) != 0)   /*@ob C05.re-offered-as-a-deferred-direct-event */
 __CPROVER_requires(p.second == (char)(g_cur_seq + 1))                            /*@ob C05.not-re-offered-within-the-cycle-that-deferred-it */
-__CPROVER_requires(g_dpushed == 0)                                               /*@ob C05.exactly-one-occurrence-stored */
+__CPROVER_requires(g_dpushed == 0)                                               /*@ob C05,C20.exactly-one-occurrence-stored */
 __CPROVER_assigns(g_dpushed)
 __CPROVER_ensures(g_dpushed == 1)
 ;
 void defer_event(fsm_t* self, event_t e)
 __CPROVER_requires(__CPROVER_is_fresh(self, sizeof(*self)) && EV_EQ(e, g_evt) && g_dpushed == 0)
 __CPROVER_assigns(g_dpushed)
-__CPROVER_ensures(g_dpushed == 1)                                                /*@ob C05.exactly-one-occurrence-stored */
+__CPROVER_ensures(g_dpushed == 1)                                                /*@ob C05,C20.exactly-one-occurrence-stored */
 ;
 HandledEnum defer_transition(fsm_t* fsm, int region, int state, event_t e)
 __CPROVER_requires(__CPROVER_is_fresh(fsm, sizeof(*fsm)) && EV_EQ(e, g_evt) && g_dpushed == 0)
 __CPROVER_assigns(g_dpushed)
-__CPROVER_ensures(g_dpushed == 1)                                                /*@ob C05.exactly-one-occurrence-stored */
+__CPROVER_ensures(g_dpushed == 1)                                                /*@ob C05,C20.exactly-one-occurrence-stored */
 __CPROVER_ensures(__CPROVER_return_value == HANDLED_DEFERRED)                    /*@ob C05,C06.deferral-reports-deferred-so-no-no_transition */
 ;
 /* do_handle_prio_msg_queue_deferred_queue(source, handled, bool_<has_event_queue_before_deferred_queue>) */
 void do_handle_deferred(fsm_t* self, _Bool new_seq)
-__CPROVER_requires(g_order == (g_queue_first ? 1 : 0))                           /*@ob C05.deferred-pass-before-the-message-queue-by-default */
+__CPROVER_requires(g_order == (g_queue_first ? 1 : 0))                           /*@ob C05,C04.deferred-pass-before-the-message-queue-by-default */
 __CPROVER_requires((g_source & EVENT_SOURCE_DEFERRED) == 0)                      /*@ob C05.no-nested-deferred-pass-while-dispatching-a-deferred-event */
 __CPROVER_requires(new_seq == ((g_handled & HANDLED_TRUE) != 0))                 /*@ob C05.new-cycle-only-after-a-taken-transition */
 __CPROVER_assigns(g_order)
 __CPROVER_ensures(g_order == __CPROVER_old(g_order) + 1)
 ;
 void do_post_msg_queue_helper(fsm_t* self, _Bool no_queue)
-__CPROVER_requires(g_order == (g_queue_first ? 0 : 1))                           /*@ob C05.deferred-pass-before-the-message-queue-by-default */
+__CPROVER_requires(g_order == (g_queue_first ? 0 : 1))                           /*@ob C05,C04.deferred-pass-before-the-message-queue-by-default */
 __CPROVER_requires((g_source & EVENT_SOURCE_MSG_QUEUE) == 0)                     /*@ob C04.no-nested-drain-while-dispatching-a-queued-event */
 __CPROVER_assigns(g_order)
 __CPROVER_ensures(g_order == __CPROVER_old(g_order) + 1)
@@ -87,7 +87,7 @@ process_result sm_process_event_internal(fsm_t* sm, event_t ev, process_info inf
 __CPROVER_requires(EV_EQ(ev, g_evt))                                             /*@ob C05,C18.deferred-occurrence-keeps-type-and-payload */
 __CPROVER_requires(info == process_info_event_pool)                              /*@ob C05.re-offered-as-a-pool-event */
 __CPROVER_requires(g_ndisp == 0 && !g_deferred_now)                              /*@ob C05.dispatched-only-when-no-active-state-defers-it */
-__CPROVER_requires(g_marked)                                                     /*@ob C05.marked-for-deletion-before-dispatch-so-dispatched-at-most-once */
+__CPROVER_requires(g_marked)                                                     /*@ob C05,C20,C04.marked-for-deletion-before-dispatch-so-dispatched-at-most-once */
 __CPROVER_assigns(g_ndisp, g_ret)
 __CPROVER_ensures(g_ndisp == 1 && 0 <= g_ret && g_ret <= 7 && (int)__CPROVER_return_value == g_ret)
 ;
@@ -97,14 +97,14 @@ __CPROVER_requires(__CPROVER_is_fresh(self, sizeof(*self)) && EV_EQ(self->m_even
 __CPROVER_assigns(self->m_marked_for_deletion, g_marked, g_ndisp, g_ret)
 __CPROVER_ensures(__CPROVER_return_value.has == (self->m_seq_cnt != seq_cnt && !g_deferred_now))          /*@ob C05.dispatched-iff-from-an-earlier-cycle-and-not-deferred-now */
 __CPROVER_ensures(__CPROVER_return_value.has == (g_ndisp == 1))
-__CPROVER_ensures(self->m_marked_for_deletion == __CPROVER_return_value.has)                                /*@ob C05.removed-exactly-when-dispatched */
+__CPROVER_ensures(self->m_marked_for_deletion == __CPROVER_return_value.has)                                /*@ob C05,C20.removed-exactly-when-dispatched */
 __CPROVER_ensures(__CPROVER_return_value.has ==> (int)__CPROVER_return_value.v == g_ret)
 ;
 extern const _Bool g_redeferral;      /* the event being deferred is a pool occurrence that is being dispatched right now (deferred before, deferred again by an action) */
 extern const _Bool g_later_pending;   /* the pool holds pending occurrences that arrived after that occurrence */
 void pool_push_back_deferred(fsm_t* self, event_t ev, uint16_t seq_cnt)      /* events.push_back(...): the new occurrence goes behind everything pending */
 __CPROVER_requires(EV_EQ(ev, g_evt))                                             /*@ob C05,C18.deferred-occurrence-keeps-type-and-payload */
-__CPROVER_requires(g_dpushed == 0)                                               /*@ob C05.exactly-one-occurrence-stored */
+__CPROVER_requires(g_dpushed == 0)                                               /*@ob C05,C20.exactly-one-occurrence-stored */
 __CPROVER_requires(!(g_redeferral && g_later_pending))                           /*@ob C05.re-deferred-occurrence-does-not-go-behind-later-arrivals */
 __CPROVER_assigns(g_dpushed, g_stored_seq)
 __CPROVER_ensures(g_dpushed == 1 && g_stored_seq == seq_cnt)
@@ -112,7 +112,7 @@ __CPROVER_ensures(g_dpushed == 1 && g_stored_seq == seq_cnt)
 void do_defer_event(fsm_t* self, event_t event, _Bool next_rtc_seq)
 __CPROVER_requires(__CPROVER_is_fresh(self, sizeof(*self)) && EV_EQ(event, g_evt) && g_dpushed == 0)
 __CPROVER_assigns(g_dpushed, g_stored_seq)
-__CPROVER_ensures(g_dpushed == 1)                                                                          /*@ob C05.exactly-one-occurrence-stored */
+__CPROVER_ensures(g_dpushed == 1)                                                                          /*@ob C05,C20.exactly-one-occurrence-stored */
 __CPROVER_ensures(g_stored_seq == (uint16_t)(next_rtc_seq ? self->event_pool.cur_seq_cnt : self->event_pool.cur_seq_cnt - 1))   /*@ob C05.sequence-number-decides-the-first-cycle-it-is-re-offered */
 ;
 
